@@ -87,7 +87,12 @@ def gen(rng, tier):
         apps = {"default": [["recv"], ["send", {"type": "websocket.accept"}], ["ws_echo"]],
                 "websocket": [["recv"], ["send", {"type": "websocket.accept"}], ["ws_echo"]]}
         config = {"websocket_max_message_size": limit, "keep_alive_timeout": 5000}
-        truth = {"msgs": msgs, "limit": limit, "pings": pings, "carrier": carrier, "deflate": deflate, "inner_ping": inner}
+        keepalive_pings = rng.random() < 0.2
+        if keepalive_pings:
+            # the server's own keep-alive pings interleave with the echoes
+            config["websocket_ping_interval"] = rng.choice([0.25, 1.0])
+        truth = {"msgs": msgs, "limit": limit, "pings": pings, "carrier": carrier, "deflate": deflate, "inner_ping": inner,
+                 "server_pings": keepalive_pings}
         if carrier == "h11":
             hs = ws.handshake(path=b"/t%d" % i, extensions=ext)
             mode = rng.choice(["after_accept", "split", "two", "bytes"])
@@ -98,6 +103,8 @@ def gen(rng, tier):
                 client = [["feed", hs], ["settle"],
                           ["feed_split", bytes(frames), G.gen_splits(rng, len(frames), {"split": "k", "two": "two", "bytes": "bytes"}[mode])]]
             client.append(["settle"])
+            if keepalive_pings:
+                client += [["advance", 1.3], ["settle"]]
             client += [["feed", closef], ["settle"]]
             yield {"family": "h11." + ("deflate" if deflate else "plain"), "backends": ["asyncio", "trio"],
                    "config": config, "conn": {}, "apps": apps, "client": client, "reactor": {"kind": "ws", "echo_close": False},
@@ -121,7 +128,8 @@ def gen(rng, tier):
                 off += n
             rspec["uploads"] = {1: q}
             rspec["uploads_wait"] = True
-            client = [["feed", pre], ["settle"], ["react", "pump"], ["settle"], ["feed", fb.data(1, closef)], ["settle"]]
+            client = [["feed", pre], ["settle"], ["react", "pump"], ["settle"]] + ([["advance", 1.3], ["settle"]] if keepalive_pings else []) + \
+                     [["feed", fb.data(1, closef)], ["settle"]]
             yield {"family": "h2." + ("deflate" if deflate else "plain"), "backends": ["asyncio", "trio"],
                    "config": config, "conn": {}, "apps": apps, "client": client, "reactor": rspec,
                    "truth": truth, "sched": {"seed": rng.randrange(1 << 30)}, "horizon": 100.0}
